@@ -34,6 +34,12 @@ class Env(object):
             _s.Connection.execute(con, 'PRAGMA journal_mode = MEMORY')
         db.generate_mapping(create_tables=True)
         self.E = dict((name, e) for name, e in db.entities.items())
+        # entity classes are built dynamically: give them an importable home so that they can be pickled
+        import types as _types
+        modname = 'vf_sx_model_%d' % Env._n
+        mod = _types.ModuleType(modname); sys.modules[modname] = mod
+        for ename, e in self.E.items():
+            e.__module__ = modname; setattr(mod, ename, e)
         self.raw = sqlite3.connect(self.path, isolation_level=None, timeout=0)
         self.raw.execute('PRAGMA journal_mode = MEMORY')
         self.tables = [r[0] for r in self.raw.execute(
